@@ -1,7 +1,7 @@
 #!/usr/bin/env python3
-"""Record detection results (from scratch-copy runs /tmp/det/out-<seed>-<PROP>-<tier>.txt) into seeded/<seed>/meta.json"""
+"""Record detection results (from scratch-copy runs /tmp/det-out/out-<seed>-<PROP>-<tier>.txt) into seeded/<seed>/meta.json"""
 import glob, json, os, re, sys
-for f in sorted(glob.glob('/tmp/det/out-*.txt')):
+for f in sorted(glob.glob('/tmp/det-out/out-*.txt')):
     m = re.match(r'.*/out-(C\d+[a-z]?-\d+)-(C\d+)-(\w+)\.txt', f)
     if not m: continue
     sid, prop, tier = m.groups()
